@@ -183,6 +183,28 @@ def one(emit, cid, clf, rng, sample):
                         viols.append(dict(common, mechanism="predict_proba-not-monotone", detail="argmax differs from decision argmax"))
         except Exception as e:
             viols.append(dict(common, mechanism="predict_proba-raises", exc=type(e).__name__, detail=repr(e)[:200]))
+    # ---------------------------------------------------------------- probabilities at far-away query points
+    if hasattr(est, "predict_proba"):
+        for scale in (30.0, 3000.0):
+            Xq = X * scale
+            try:
+                with np.errstate(all="ignore"), warnings.catch_warnings():
+                    warnings.simplefilter("ignore")
+                    Pq = np.asarray(est.predict_proba(C.to_storage(Xq, "csc") if sparse_in else Xq), float)
+                linq = Xq @ coef.T + (icp if icp.shape[0] == coef.shape[0] else icp[0] if icp.size else 0.0)
+                okq = bool(np.all(np.isfinite(Pq)) and np.all(np.abs(Pq.sum(axis=1) - 1) <= 1e-9) and np.all(Pq >= 0)
+                           and np.all(Pq <= 1))
+                if okq and K == 2:
+                    o = np.argsort(linq[:, 0])
+                    okq = not np.any(np.diff(Pq[o, 1]) < -1e-12)
+                if not okq:
+                    viols.append(dict(common, mechanism="predict_proba-not-a-distribution", query_scale=scale,
+                                      detail="query points with |decision| up to %.3g: rows not finite / not summing to one / "
+                                             "not monotone" % float(np.max(np.abs(linq)))))
+                    break
+            except Exception as e:
+                viols.append(dict(common, mechanism="predict_proba-raises", exc=type(e).__name__, detail=repr(e)[:200]))
+                break
     # ---------------------------------------------------------------- one-vs-rest rows are the binary models
     rows = coef.shape[0]
     n_conv = 0
